@@ -754,7 +754,7 @@ func (fr *frame) runBlock() {
 			fr.set(ins, copyVal(fr.get(ins.X).(Struct)[ins.Field]))
 		case *ssa.IndexAddr:
 			x := fr.get(ins.X)
-			idx := fr.get(ins.Index).(*Term)
+			idx := idx64(fr.get(ins.Index).(*Term), ins.Index.Type())
 			switch x := x.(type) {
 			case Slice:
 				i := e.index(idx, len(x.v))
@@ -771,7 +771,7 @@ func (fr *frame) runBlock() {
 			}
 		case *ssa.Index:
 			x := fr.get(ins.X)
-			idx := fr.get(ins.Index).(*Term)
+			idx := idx64(fr.get(ins.Index).(*Term), ins.Index.Type())
 			switch x := x.(type) {
 			case Array:
 				fr.set(ins, copyVal(x[e.index(idx, len(x))]))
@@ -799,6 +799,18 @@ func (fr *frame) runBlock() {
 			e.cut(fmt.Sprintf("unsupported-instr:%T", ins))
 		}
 	}
+}
+
+// idx64 widens an index operand to 64 bits according to the signedness of its
+// static type (a byte used as an index is unsigned: first[s[0]]).
+func idx64(idx *Term, t types.Type) *Term {
+	if idx.W == 64 {
+		return idx
+	}
+	if isSigned(t) {
+		return Sext(idx, 64)
+	}
+	return Zext(idx, 64)
 }
 
 func (e *Exec) index(idx *Term, n int) int {
